@@ -22,6 +22,11 @@ theorem C17_gen_style_consts : Generated.C17.styleConsts = some styleConsts := b
 /-- the code fence literal -/
 theorem C17_gen_fence : Generated.C17.fence = some fence := by decide
 
+/-- the token size limit `NewDecoder` passes to `bufio.Scanner.Buffer`, read from the source
+(constant-evaluated; the default 64 KiB when `Buffer` is not called), is the model's: none.
+Any finite cap makes this obligation fail. -/
+theorem C17_gen_decoder_limit : Generated.C17.decoderLimit = some decoderLimit := by decide
+
 /-! ### Every call of the split function honours the `bufio.SplitFunc` contract
 
 `Dec.OK` (a decoder whose `quoteStarted` flag is set has an inner decoder, along the whole
@@ -93,6 +98,15 @@ theorem C17_decoder_lossless (sch : Schedule) (doc : Bytes) :
   refine ⟨evs, hevs, ?_⟩
   rw [events_concat 0 _ evs hevs]
   exact C17_lossless none sch doc heof
+
+/-- **lossless for the real `NewDecoder`**: the limit that the source gives the scanner
+(regenerated fact) admits every document — decoded to EOF under every schedule, with the
+event data concatenating to the document.  The "no limit" premise of
+`C17_decoder_lossless` is discharged from the fact, not assumed. -/
+theorem C17_newdecoder_lossless (sch : Schedule) (doc : Bytes) :
+    ∃ lim, Generated.C17.decoderLimit = some lim ∧ (decode lim sch doc).2 = .eof ∧
+      ∃ evs, (decode lim sch doc).1 = some evs ∧ (evs.map (·.data)).flatten = doc :=
+  ⟨none, C17_gen_decoder_limit, C17_decoder_lossless sch doc⟩
 
 /-- with a token limit (a caller's own `bufio.Scanner` around `styling.Scan()`) the only
 other outcome is `ErrTooLong`, and it does occur: one long line -/
